@@ -48,6 +48,7 @@
 -/
 import TypedpyModel.Lemmas.World
 import TypedpyModel.Sem.WorldDecl
+import TypedpyModel.Lemmas.WorldFootprint
 import TypedpyModel.Generated.Registries
 import TypedpyModel.Pinned.Registries
 namespace Typedpy.C15
@@ -557,6 +558,50 @@ theorem construct_result_example :
         (constructVal {reMatch := fun _ _ => false} exEnv b [("who", .inst "U#1" [])]).map
           (fun r => match r with | .error .typeErr => 1 | _ => 0) ])
       = some [some 3, some 1, some 1, some 1] := by
+  decide +kernel
+
+/-! ### the state footprint of a use -/
+
+/-- THE STATE FRAME: a use of class `c` (construct, serialize, deserialize, trusted deserialization,
+    structure_to_schema, create_serializer) writes only state owned by `c` or by classes `c` refers to: outside any
+    class set `S ∋ c` closed under "is referred to by a field of", every class entry, every mapper-cache entry and
+    every simplicity-cache entry is exactly what it was, the wrapper registry, the inline-class counter and the
+    global flags are untouched, and no class is added, removed or re-defined -/
+theorem use_state_frame (cfg : Config) (hc : cfg.cachesById = true) (hns : cfg.schemaWritesRequired = false)
+    (S : ClassId → Bool) (w : World) (op : WorldOp) (hcl : SClosed S w)
+    (hop : match op with
+      | .construct c _ | .serialize c _ _ | .deserialize c _ | .trustedDeserialize c _ | .toSchema c
+      | .createSerializer c _ => S c = true
+      | _ => False) :
+    Untouched S w (stepW cfg w op).1 :=
+  use_untouched hc w op hcl hop hns
+
+theorem use_state_frame_today (S : ClassId → Bool) (w : World) (op : WorldOp) (hcl : SClosed S w)
+    (hop : match op with
+      | .construct c _ | .serialize c _ _ | .deserialize c _ | .trustedDeserialize c _ | .toSchema c
+      | .createSerializer c _ => S c = true
+      | _ => False) :
+    Untouched S w (stepW (configOf Generated.registries) w op).1 := by
+  have hs := current_config_safe
+  have hsw : (configOf Generated.registries).schemaWritesRequired = false := by
+    cases hc : configOf Generated.registries with
+    | mk a b b2 c d e => rw [hc] at hs; cases d <;> simp_all [Config.safe]
+  exact use_untouched (cachesById_of_safe _ hs) w op hcl hop hsw
+
+/-- non-vacuity: in the world after the three definitions of `hNested` plus an unrelated class 5,
+    `create_serializer(Order)` changes the entries of Order (2), Premium (1) and Account (0) — the classes Order
+    refers to — and nothing of class 5 -/
+theorem state_frame_example :
+    let cfg := configOf Generated.registries
+    let w := runW cfg World.initial [.define 0 clsAcct, .define 1 clsPrem, .define 2 clsOrder, .define 5 clsS]
+    let w2 := (stepW cfg w (.createSerializer 2 .plain)).1
+    alookup 5 w2.classes = alookup 5 w.classes
+    ∧ alookup (CKey.id 5 false) w2.mapperCache = none
+    ∧ (alookup 2 w2.classes).map (·.serializer.isSome) = some true
+    ∧ (alookup 1 w2.classes).map (·.serializer.isSome) = some true
+    ∧ (alookup 0 w2.classes).map (·.serializer.isSome) = some true
+    ∧ (alookup (CKey.id 1 false) w2.mapperCache).isSome = true
+    ∧ (alookup (CKey.id 0 false) w2.mapperCache).isSome = true := by
   decide +kernel
 
 end Typedpy.C15
